@@ -279,7 +279,9 @@ func c07Work(w *h.W) {
 		nums = append(nums, ref.Flt(f))
 	}
 	run := func(c *c07Case, size int) {
+		w.Guard(c)
 		exp, act, sig, outc, ok := c07Eval(im, c)
+		w.Unguard()
 		w.Eval(1)
 		w.States(1)
 		w.Transitions(1)
